@@ -7,7 +7,7 @@ from vlib import env, ir, progcheck, strategies as S
 from checks import _prog
 
 PROP = 'C11'
-PROFILE = S.profile(n_consts=(2, 8), p_const_operand=0.6, p_alias=0.5, w_shift=6, w_li=6, w_data=5, w_labelval=4, w_cinsn=4,
+PROFILE = S.profile(chr_extra='\'\'\'##,,()" ', n_consts=(2, 8), p_const_operand=0.6, p_alias=0.5, w_shift=6, w_li=6, w_data=5, w_labelval=4, w_cinsn=4,
                     w_upper=3, w_group=1, far=False, n_items=(2, 30))
 N = {'quick': 3200, 'thorough': 240000}
 PRINTABLE = [chr(c) for c in range(0x20, 0x7f)]
